@@ -4,22 +4,26 @@
 For each: scratch copy of /repo (never /repo itself), `git apply patch.diff`, the repository's own suite must still pass,
 the demonstration must fail with the change and pass without it, then the quick check(s) of the property (and, with
 --all, every check) are run with --src <scratch>.  Results go to seeded/RESULTS.json and are printed as a table.
-usage: tools/seeded.py [--all] [--thorough] [name ...]"""
+usage: tools/seeded.py [--all] [--thorough] [--shard=k/n] [--merge] [name ...]"""
 import json, os, subprocess, sys, shutil, time
 HERE = os.path.dirname(os.path.dirname(os.path.abspath(__file__)))
 SEED = os.path.join(HERE, "seeded")
 SCR = f"/root/scratch/sd{os.getpid()}"
 args = [a for a in sys.argv[1:] if not a.startswith("--")]
+SHARD = next((a.split("=")[1] for a in sys.argv[1:] if a.startswith("--shard=")), None)  # k/n: every n-th change, results in RESULTS.k.json
 ALL = "--all" in sys.argv
 TIER = "thorough" if "--thorough" in sys.argv else "quick"
 def sh(cmd, cwd=None, env=None, timeout=3600):
     e = dict(os.environ); e.update(env or {})
     return subprocess.run(cmd, shell=True, cwd=cwd, capture_output=True, text=True, env=e, timeout=timeout)
 results = {}
-res_path = os.path.join(SEED, "RESULTS.json")
+res_path = os.path.join(SEED, "RESULTS.json" if not SHARD else f"RESULTS.{SHARD.split('/')[0]}.json")
 if os.path.exists(res_path):
     results = json.load(open(res_path))
 names = sorted(d for d in os.listdir(SEED) if os.path.isdir(os.path.join(SEED, d)))
+if SHARD:
+    k, n = map(int, SHARD.split("/"))
+    names = names[k::n]
 for name in names:
     if args and name not in args:
         continue
@@ -57,4 +61,10 @@ for name in names:
     results[name] = row
     print(f"{name:28s} prop={meta['property']} suite={row['suite'][:12]!r} demo={row.get('demo_clean')}/{row.get('demo_patched')} detected_by={row['detected_by']}")
     shutil.rmtree(SCR, ignore_errors=True)
-json.dump(results, open(res_path, "w"), indent=1, sort_keys=True)
+    json.dump(results, open(res_path, "w"), indent=1, sort_keys=True)
+if "--merge" in sys.argv:
+    import glob
+    for f in sorted(glob.glob(os.path.join(SEED, "RESULTS.*.json"))):
+        results.update(json.load(open(f)))
+        os.remove(f)
+    json.dump(results, open(os.path.join(SEED, "RESULTS.json"), "w"), indent=1, sort_keys=True)
